@@ -407,7 +407,7 @@ type leaderWrap struct {
 }
 
 func (l *leaderWrap) GetLeader(v hotstuff.View) hotstuff.ID {
-	id := l.inner.GetLeader(v)
+	id := l.guarded(v)
 	for _, f := range l.nd.w.hooks.onLeader {
 		f(l.nd, v, id)
 	}
